@@ -29,6 +29,7 @@ def inner(t):
         d["group_size"] = t._group_size
         d["packed_cls"] = type(data).__name__
         d["payload_bytes"] = data._data.numel() * data._data.element_size()
+        d["payload_storage_bytes"] = data._data.untyped_storage().nbytes()
         d["payload_dtype"] = str(data._data.dtype)
         d["unpacked_shape"] = list(data.shape)
         d["payload_bits"] = bits(data._data)
@@ -36,6 +37,7 @@ def inner(t):
         d["zp_bits"] = bits(t._zeropoint)
     else:
         d["payload_bytes"] = data.numel() * data.element_size()
+        d["payload_storage_bytes"] = data.untyped_storage().nbytes()
         d["payload_dtype"] = str(data.dtype)
         d["unpacked_shape"] = list(data.shape)
         d["payload_bits"] = bits(data.view(torch.uint8) if data.dtype != torch.int8 else data)
